@@ -32,6 +32,7 @@ class TW(object):
         self.cond = 0
         self.cancel_scopes = []
         self.hops = {}
+        self.hop_frames = {}
 
     def C(self):
         self.cond += 1
@@ -56,6 +57,7 @@ class TW(object):
     # --- thread hops ---
     def sync_fn(self, depth, key):
         trio = self.trio
+        self.hop_frames.setdefault(key, []).append(sys._getframe(0))
         if depth > 0:
             return trio.from_thread.run(self.async_fn, depth - 1, key)
         lock = threading.Lock()
@@ -67,6 +69,7 @@ class TW(object):
 
     async def async_fn(self, depth, key):
         trio = self.trio
+        self.hop_frames.setdefault(key, []).append(sys._getframe(0))
         if depth > 0:
             return await trio.to_thread.run_sync(self.sync_fn, depth - 1, key)
         t = trio.lowlevel.current_task()
@@ -79,7 +82,7 @@ class TW(object):
         self.expected_parked += 1
         self.hops[key] = depth
         t = self.trio.lowlevel.current_task()
-        self.info.setdefault(t, {})["blocks"] = ("hop", depth)
+        self.info.setdefault(t, {})["blocks"] = ("hop", depth, key)
         await self.trio.to_thread.run_sync(self.sync_fn, depth, key)
 
 
@@ -234,6 +237,15 @@ def walk_check(ctx, W, task, st, depth=0):
         exp = []
         for k in range(d + 1):
             exp.append("sync_fn" if k % 2 == 0 else "async_fn")
+        got_frames = [f.pyframe for f in vis if f.funcname in ("sync_fn", "async_fn")]
+        exp_frames = W.hop_frames.get(blocks[2], []) if len(blocks) > 2 else []
+        if names == exp and (len(got_frames) != len(exp_frames) or any(a is not b for a, b in zip(got_frames, exp_frames))):
+            raise Violation(
+                "c14_thread_hops",
+                "task %s: alternation of depth %d shows the right function names but not the frames of the threads / task actually serving the chain (a worker thread's frames appear in place of another's)"
+                % (task.name, d),
+                {"depth": d},
+            )
         if names != exp:
             raise Violation(
                 "c14_thread_hops",
